@@ -9,6 +9,10 @@ Inputs (all chosen by TLC):
     cut after every byte - x 5 capacities;
   * MC_SnappyGen / MC_Lz4Gen: the derived invalid blocks of valid token lists (truncations,
     offset 0 / beyond output, wrong declared length, destination too small);
+  * MC_SnappyTail / MC_Lz4Tail: blocks whose match (offsets 8, 9, 16, 64; every length 4..20) ends at
+    or within 7 bytes of the end of the output (LZ4 also: block ends in a match), decoded into
+    exactly the output size, one less / more, and capacities cutting inside the match / the
+    trailing literals;
   * MC_CodecFuzz: mutations (truncate, drop tail, set / xor byte near the head, the tail, in the
     middle, append) of valid blocks produced by the codec itself, and seeded noise behind
     plausible headers, x capacities {0, n-1, n, n+1} / {0, 1, 64, 4096}.
@@ -49,11 +53,12 @@ def run_part(chk, tier):
         lines.append("%s fz %s %d %s" % (cid, codec, cap, src))
         meta[cid] = (codec, cap, src, info)
 
-    nbytes = ngen = 0
+    nbytes = ngen = ntail = 0
     W = max(2, common.NCPU // 4)
     jobs = {"fuzz": lambda: fuzz_cases(tier, workers=W)}
     for fmt in ("snappy", "lz4"):
         jobs["bytes-" + fmt] = (lambda fmt=fmt: c10.bytes_cases(fmt, tier, workers=W))
+        jobs["tail-" + fmt] = (lambda fmt=fmt: c10.tail_cases(fmt, tier, workers=W))
         # derived invalid blocks: the quick tier takes Snappy's only (LZ4's are replayed under ASan by C10 anyway)
         if tier != "quick" or fmt == "snappy":
             jobs["gen-" + fmt] = (lambda fmt=fmt: c10.gen_cases(fmt, "quick", workers=W))
@@ -65,6 +70,12 @@ def run_part(chk, tier):
             for cap in c["j"]:
                 add(fmt, int(cap), "raw:" + bytes_rope(c["s"]), ("bytes", c["s"][-1] if c["s"] else None))
                 nbytes += 1
+        tcases, r = gen["tail-" + fmt]
+        chk.add_tlc(r)
+        for c in tcases:
+            for cap in c["j"]:
+                add(fmt, int(cap), "raw:" + bytes_rope(c["s"]), ("match-at-end", c["s"][-1] if c["s"] else None))
+                ntail += 1
         if "gen-" + fmt not in gen:
             continue
         gcases, rs = gen["gen-" + fmt]
@@ -137,7 +148,7 @@ def run_part(chk, tier):
         if 0 <= i < len(lines):
             chk.sample({"call": lines[i], "result": res.get("z%d" % i)})
     chk.part("decompressors", calls=len(obs), accepted_by_contract=accepted, returned_ok=ok_calls, faults=len(faults),
-             byte_strings=nbytes, derived_invalid=ngen, fuzz=len(fcases), per_codec=by)
+             byte_strings=nbytes, match_at_end=ntail, derived_invalid=ngen, fuzz=len(fcases), per_codec=by)
     chk.cov["traces_validated_against_impl"] += len(obs)
     return len(obs)
 
